@@ -314,7 +314,7 @@ def f_state_history(case):
             if len(q) == N and not stp['usemask']:
                 S.rotate_by(Bk.pauli(gl, gk))
             else:
-                S.rotate_by(Bk.pauli(gl, gk), Bk.mask(q, N))
+                S.rotate_by(Bk.pauli(gl, gk), Bk.mask_arg(q, N))
             L, K = ref.rotate_rule(L, K, ref.embed_letters(gl, q, N), gk)
         elif t == 'transform':
             q = stp['qubits']
@@ -322,7 +322,7 @@ def f_state_history(case):
             if len(q) == N and not stp['usemask']:
                 S.transform_by(Bk.cmap(small))
             else:
-                S.transform_by(Bk.cmap(small), Bk.mask(q, N))
+                S.transform_by(Bk.cmap(small), Bk.mask_arg(q, N))
             L, K = small.embed(q, N).apply(L, K)
     ts = [x['t'] for x in case['steps']]
     dq = [i for i, x in enumerate(ts) if x in ('diagonalize', 'to_map')]
